@@ -91,3 +91,50 @@ Fixpoint py_split1 (c : ascii) (s : string) : list string :=
          | [] => [String a EmptyString]
          end
   end.
+
+(* ---------- round 2: dicts as values, defaultdict(set), list.append ---------- *)
+(* A dict VALUE is an association list in insertion order WITHOUT duplicate keys: every operation below keeps that shape
+   (d[k] = v on an existing key keeps the position and the key object).  A lookup returns the first entry of the key;
+   py_dict_get above (last duplicate wins) is the meaning of a dict LITERAL, where a key may be written twice. *)
+Definition py_dict_keys {K V : Type} (d : list (K * V)) : list K := map fst d.
+Definition py_dict_values {K V : Type} (d : list (K * V)) : list V := map snd d.
+Definition py_dict_items {K V : Type} (d : list (K * V)) : list (K * V) := d.
+
+(* d[k] = v *)
+Fixpoint py_dict_set {K V : Type} (eqb : K -> K -> bool) (d : list (K * V)) (k : K) (v : V) : list (K * V) :=
+  match d with
+  | [] => [(k, v)]
+  | (k', v') :: t => if eqb k k' then (k', v) :: t else (k', v') :: py_dict_set eqb t k v
+  end.
+
+(* d[k] : KeyError when the key is missing *)
+Fixpoint py_dict_getitem {K V : Type} (eqb : K -> K -> bool) (d : list (K * V)) (k : K) : res V :=
+  match d with
+  | [] => Raise KeyError
+  | (k', v) :: t => if eqb k k' then Ok v else py_dict_getitem eqb t k
+  end.
+
+(* k in d *)
+Definition py_dict_mem {K V : Type} (eqb : K -> K -> bool) (k : K) (d : list (K * V)) : bool :=
+  existsb (fun kv => eqb k (fst kv)) d.
+
+(* d[k].add(x) on a defaultdict(set): a missing key is created with the empty set first *)
+Fixpoint py_dd_add {K V : Type} (eqk : K -> K -> bool) (eqv : V -> V -> bool) (d : list (K * list V)) (k : K) (x : V)
+  : list (K * list V) :=
+  match d with
+  | [] => [(k, [x])]
+  | (k', s) :: t => if eqk k k' then (k', py_union eqv s [x]) :: t else (k', s) :: py_dd_add eqk eqv t k x
+  end.
+
+(* d[k].add(x) on a plain dict: KeyError when the key is missing *)
+Fixpoint py_dict_setadd {K V : Type} (eqk : K -> K -> bool) (eqv : V -> V -> bool) (d : list (K * list V)) (k : K) (x : V)
+  : res (list (K * list V)) :=
+  match d with
+  | [] => Raise KeyError
+  | (k', s) :: t =>
+    if eqk k k' then Ok ((k', py_union eqv s [x]) :: t)
+    else match py_dict_setadd eqk eqv t k x with Ok t' => Ok ((k', s) :: t') | Raise e => Raise e end
+  end.
+
+(* l.append(x) *)
+Definition py_append {A : Type} (l : list A) (x : A) : list A := l ++ [x].
